@@ -20,27 +20,27 @@ def run(ctx):
     if ctx.tier == "thorough":
         ctx.leanchecker("MpcVerif.Props.C16")
     ctx.build_drv()
-    # structural facts: the label comparison is the only path from received
-    # bytes to result bits; Eval checks row lengths
-    g = vlib.strip_go_comments(vlib.go_func_body("circuit/garbler.go", r"Garbler\(") or "")
-    ctx.fact("Garbler: result bits come only from BitFromLabel",
-             {"BitFromLabel": len(re.findall(r"BitFromLabel\(", g)), "SetBit": len(re.findall(r"\.SetBit\(", g)),
-              "err_return_after_decode": bool(re.search(r"BitFromLabel\(wire, label\)\s*\n\s*if err != nil \{\s*\n\s*return nil, err", g))},
-             {"BitFromLabel": 1, "SetBit": 1, "err_return_after_decode": True})
+    # structural fact (gofacts callseq: helpers inlined, rename-robust): the only decoding call on the path from
+    # received labels to result bits of circuit.Garbler is BitFromLabel
+    ctx.fact("Garbler: result bits are set (big.Int.SetBit) only after BitFromLabel (helpers inlined)",
+             ctx.callseq("circuit", "Garbler", ["SetBit"], funcs=["BitFromLabel"]),
+             ["func.BitFromLabel", "?.SetBit", "?.SetBit"])
+    # advisory source-text expectations: what decides is the `decide` correspondence (real result loops on scripted
+    # returned labels vs Lean decodeLabels) and the fault enumeration below
     h = vlib.strip_go_comments(vlib.go_func_body("circuit/helpers.go", r"BitFromLabel\(") or "")
-    ctx.fact("BitFromLabel: L0 -> false, L1 -> true, otherwise error",
-             re.sub(r"\s+", " ", h)[:400],
-             'func BitFromLabel(wire ot.Wire, label ot.Label) (bool, error) { switch { case label.Equal(wire.L0): '
-             'return false, nil case label.Equal(wire.L1): return true, nil default: return false, '
-             'fmt.Errorf("unknown label %s for wire %v", label, wire) } }')
+    ctx.advise("BitFromLabel: L0 -> false, L1 -> true, otherwise error (source text)",
+               re.sub(r"\s+", " ", h)[:400],
+               'func BitFromLabel(wire ot.Wire, label ot.Label) (bool, error) { switch { case label.Equal(wire.L0): '
+               'return false, nil case label.Equal(wire.L1): return true, nil default: return false, '
+               'fmt.Errorf("unknown label %s for wire %v", label, wire) } }')
     st = vlib.strip_go_comments(vlib.repo_file("compiler/ssa/streamer.go"))
-    ctx.fact("streaming garbler result loop: Equal(L0)/Equal(L1)/else error",
-             bool(re.search(r"if label\.Equal\(wire\.L0\) \{\s*bit = 0\s*\} else if label\.Equal\(wire\.L1\) \{\s*bit = 1\s*\} "
-                            r"else \{\s*return nil, nil, fmt\.Errorf\(\"unknown label", st)), True)
-    ev = vlib.strip_go_comments(vlib.go_func_body("circuit/eval.go", r"\(c \*Circuit\) Eval\(") or "")
-    ctx.fact("Eval checks table row lengths",
-             {"and_len": len(re.findall(r"len\(row\) != 2", ev)), "index_bound": len(re.findall(r"index >= len\(row\)", ev))},
-             {"and_len": 1, "index_bound": 2})
+    ctx.advise("streaming garbler result loop: Equal(L0)/Equal(L1)/else error (source text)",
+               bool(re.search(r"if label\.Equal\(wire\.L0\) \{\s*bit = 0\s*\} else if label\.Equal\(wire\.L1\) \{\s*bit = 1\s*\} "
+                              r"else \{\s*return nil, nil, fmt\.Errorf\(\"unknown label", st)), True)
+    ev = vlib.strip_go_comments(vlib.repo_file("circuit/eval.go"))
+    ctx.advise("Eval checks table row lengths (source text)",
+               {"and_len": len(re.findall(r"len\(row\) != 2", ev)) >= 1, "index_bound": len(re.findall(r"index >= len\(row\)", ev)) >= 1},
+               {"and_len": True, "index_bound": True})
     quick = ctx.tier == "quick"
     if ctx.build_hx():
         ops, out, meta = ctx.run_hx("decide", 300 if quick else 6000, timeout=1500)
@@ -61,7 +61,7 @@ def run(ctx):
                    "ways, output labels) and both directions + output labels of streaming sessions",
                    len(regions) >= 9 and nf > 0, "regions: %s" % regions)
         ctx.coverage["exhaustive"] = not quick
-        if ctx.broken and not ctx.fails:
+        if ctx.widen:
             for s in range(ctx.seed + 7000, ctx.seed + 7003):
                 ops, out, meta = ctx.run_hx("faults", 4000, seed=s, tag="-widen", timeout=2400)
                 ctx.absorb_meta(meta, prefix="widen_")
